@@ -83,3 +83,16 @@ Theorem C13_source_line_rank_unchecked : forall ws symbol i, symbol < 256 -> i <
   g_qline_rank_unchecked ws symbol i = qline_rank_unchecked ws symbol i.
 Proof. exact g_qline_rank_unchecked_ok. Qed.
 Print Assumptions C13_source_line_rank_unchecked.
+
+From QwtModel Require Import LeavesQV LeavesQVOk.
+
+(* ---- T3: QVector::len / is_empty REGENERATED from src/qvector/mod.rs (Gen/LeavesQV.v; they read the
+   scalar field `position` only) are the hand model's qv_len / qv_is_empty and cannot fault.
+   (QVector::get_unchecked indexes a slice of DataLine structs: outside the translated subset.) *)
+Theorem C13_source_qv_len : forall q, qv_position q < 2 ^ 64 -> g_qv_len (qv_position q) = Val (qv_len q).
+Proof. exact g_qv_len_ok. Qed.
+Print Assumptions C13_source_qv_len.
+Theorem C13_source_qv_is_empty : forall q, qv_position q < 2 ^ 64 ->
+  g_qv_is_empty (qv_position q) = Val (qv_is_empty q).
+Proof. exact g_qv_is_empty_ok. Qed.
+Print Assumptions C13_source_qv_is_empty.
